@@ -558,7 +558,8 @@ def _judge(case, stats, info):
     if mn.delayslot or any(l.delayslot for b in good for l in b.lines[:1]):
         info["simp"] = "skipped"
         return None
-    before = igraph(asmcfg, loc_db, AsmBlockBad)
+    bn, be, contracted = igraph(asmcfg, loc_db, AsmBlockBad)
+    before = (bn, be)
     have_block = set(b.loc_key for b in blocks)
     ob_bto = dict((b.lines[-1].offset, list(b.bto)) for b in good)      # snapshot: merging mutates the blocks
     where = dict((o, (b, i)) for o, (b, i) in where.items())
@@ -567,7 +568,7 @@ def _judge(case, stats, info):
         new = bbl_simplifier(asmcfg)
     except Exception as ex:
         fail("bbl_simplifier:exception:%s@%s" % (type(ex).__name__, _where(ex)), "bbl_simplifier raised %r" % ex)
-    after = igraph(new, loc_db, AsmBlockBad)
+    after = igraph(new, loc_db, AsmBlockBad, contracted)[:2]
     info["merged"] = len(asmcfg) - len(new) if len(new) <= len(asmcfg) else 0
     if before != after:
         bn, be = before
@@ -596,9 +597,11 @@ def _h(o):
     return "0x%x" % o if isinstance(o, int) else str(o)
 
 
-def igraph(cfg, loc_db, AsmBlockBad):
-    """instruction-level graph (nodes, edges) of a CFG, after contracting every final jump of a block whose decoded
-    destinations (constraints) are one single block present in the graph"""
+def igraph(cfg, loc_db, AsmBlockBad, contract=None):
+    """instruction-level graph (nodes, edges, contracted) of a CFG, after contracting the final jumps of blocks
+    whose decoded destinations (constraints) are all one single block present in the graph.  The set of such jumps
+    is computed on the graph before merging and reused (`contract`) for the merged graph, so that both sides are
+    compared modulo the same jumps."""
     nodes = set()
     edges = set()
     removable = set()
@@ -624,6 +627,9 @@ def igraph(cfg, loc_db, AsmBlockBad):
         if last.breakflow() and last.dstflow() and not last.is_subcall() and len(dsts) == 1 \
                 and cfg.loc_key_to_block(list(dsts)[0]) is not None and len(lo) >= 1:
             removable.add(lo[-1])
+    if contract is not None:
+        removable = set(j for j in contract if j in nodes)
+    contracted = set(removable)
     for j in sorted(removable):
         preds = [a for (a, b) in edges if b == j and a != j]
         succs = [b for (a, b) in edges if a == j and b != j]
@@ -636,7 +642,7 @@ def igraph(cfg, loc_db, AsmBlockBad):
         if selfloop:
             for a in preds:
                 edges.add((a, a))
-    return nodes, edges
+    return nodes, edges, contracted
 
 
 # ---------------------------------------------------------------------------------------------
